@@ -258,6 +258,19 @@ func (p *c11Prog) nameOf(t int) string {
 	return ""
 }
 
+// tailOf: the line break COMMIT appends after the records of table t: nothing with
+// --strip-ending-line-break, the session's --line-break for a created table, the file's own line
+// break (the generator writes LF files) for an existing one
+func (p *c11Prog) tailOf(t int) []byte {
+	if len(p.LB) == 0 {
+		return nil
+	}
+	if p.isNew(t) {
+		return p.LB
+	}
+	return []byte("\n")
+}
+
 // isNew: the table does not exist before the run (the program may create it)
 func (p *c11Prog) isNew(t int) bool { _, ok := p.Init[p.nameOf(t)]; return !ok }
 
@@ -581,7 +594,7 @@ func (p *c11Prog) translate(o c11Obs) c11Model {
 			if !seen {
 				b = []byte("?") // never written in this run: any non-empty payload (an empty one would issue no write call)
 			}
-			acts[pd.idx] = strings.Replace(acts[pd.idx], "BODY", coqBytes(b), 1)
+			acts[pd.idx] = strings.Replace(acts[pd.idx], "BODY", "("+coqBytes(b)+", "+coqBytes(p.tailOf(pd.tbl))+")", 1)
 		}
 		pending = nil
 	}
@@ -653,7 +666,7 @@ func (p *c11Prog) translate(o c11Obs) c11Model {
 				f = "(Some 2%nat)"
 			}
 			if !exists[t] && !blockedCreate[t] && lockTooLong(nameLen(t)) {
-				acts = append(acts, fmt.Sprintf("ACreate %d%%N [] (Some 0%%nat)", t)) // the .lock file cannot be made
+				acts = append(acts, fmt.Sprintf("ACreate %d%%N ([], []) (Some 0%%nat)", t)) // the .lock file cannot be made
 				ended = true
 				break
 			}
@@ -694,7 +707,7 @@ func (p *c11Prog) translate(o c11Obs) c11Model {
 	last := segs[len(segs)-1] // what the end of the run (auto-COMMIT, deferred release) did
 	setBodies(last)
 	for i := range acts {
-		acts[i] = strings.Replace(acts[i], "BODY", "[63]%N", 1)
+		acts[i] = strings.Replace(acts[i], "BODY", "([63]%N, [])", 1)
 	}
 	m.Prog = "[" + strings.Join(acts, "; ") + "]"
 	m.Fin = fmt.Sprintf("ACommit %s %s %s None", coqNs(dedupInts(last.ordc)), coqNs(dedupInts(last.ordu)), coqNs(dedupInts(last.ordi)))
@@ -712,8 +725,8 @@ func (p *c11Prog) translate(o c11Obs) c11Model {
 var c11RenameOver bool
 
 func (p *c11Prog) coqCase(id int, o c11Obs, m c11Model, readonly bool) string {
-	return fmt.Sprintf("mkPC %d%%N (mkCfg "+coqBool(c11RenameOver)+" %s)\n  %s\n  %s\n  (%s) %s %s\n  %s\n  %s\n  %s %s %s %s",
-		id, coqBytes(p.LB), o.S0.coq(), m.Prog, m.Fin, m.Ord, coqBool(p.Signal != "" || p.Fault),
+	return fmt.Sprintf("mkPC %d%%N (mkCfg "+coqBool(c11RenameOver)+")\n  %s\n  %s\n  (%s) %s %s\n  %s\n  %s\n  %s %s %s %s",
+		id, o.S0.coq(), m.Prog, m.Fin, m.Ord, coqBool(p.Signal != "" || p.Fault),
 		coqOps(o.Ops), o.Snap.coq(), coqNs(m.Absent), coqNs(m.AllNone), coqBool(readonly), coqBool(o.Same))
 }
 
@@ -957,11 +970,18 @@ func runC11(seed int64, tier string, out string) {
 		meta.Distribution["judged without the model (failing "+class+")"]++
 		for pth := range o.Snap.Files {
 			if _, was := o.S0.Files[pth]; pth.Kind != kData && !was {
-				key := "fault-leftover-control-file"
+				key, what := "fault-leftover-control-file", "after a failing "+class
 				if class == "flock" {
-					key = "flock-failure-leaves-control-file"
+					// locking a file that was just made fails (go-file Create = open + flock), or unlocking
+					// before the close fails (go-file Close = flock(LOCK_UN) + close): different call sites
+					key, what = "flock-failure-leaves-control-file", "after a failing flock(LOCK_EX|LOCK_SH) on a file that had just been made"
+					for _, ic := range o.Trace.Injected {
+						if strings.HasPrefix(ic, "flock(LOCK_UN)") {
+							key, what = "unlock-failure-leaves-control-file", "after a failing flock(LOCK_UN) (the unlock go-file does before it closes a file)"
+						}
+					}
 				}
-				meta.Direct = append(meta.Direct, DirectViolation{Key: key, What: fmt.Sprintf("after a failing %s the run left the control file %s behind", class, pth), Case: cinfo})
+				meta.Direct = append(meta.Direct, DirectViolation{Key: key, What: fmt.Sprintf("%s the run left the control file %s behind", what, pth), Case: cinfo})
 				break
 			}
 		}
